@@ -23,6 +23,10 @@ claimed = {
              note="State equality is up to array identity and capacity; margin bytes beyond len(Data) are not compared; engine semantics; solver soundness.", tech="contract-based deductive verification: WP/VC generation over the typed Go AST (lzvc), ghost-client lemma functions, SMT discharge (z3/cvc5)", ref="DESIGN.md §4 C13"),
  "C08": dict(cat="other", text="WrappedParser.Parse is verified against an interface contract of lz.Parser stated over a ghost model of the parser (absolute parse position, absolute end of buffered data, retained history, BufferSize, ShrinkSize) and a ghost model of the reader (bytes delivered, number of Read calls, byte count and error of the last call). Proved for all inputs, chunkings and fault placements: a nil error means n >= 1 bytes consumed at the parse position; an error is returned only when the position equals the end of everything read (every byte delivered before the failure has been handed out), it is the error of a Read call made during this very call that delivered 0 bytes (so a recovered reader is asked again; nothing is sticky), the bytes appended equal the bytes the reader delivered (count; order and content by the C15 clause of ReadFrom), the loop runs at most twice, and panic(\"unexpected ErrFullBuffer\") is unreachable. For HP, BHP, DHP, BDHP and BUP the lemmas lemmaModel{Parse,Shrink,ReadFrom,Reset}<P> prove that the methods that really run satisfy the interface clauses with the model replaced by the concrete fields (both generated from one template). ReadFrom fills the buffer until it is full or the reader fails, so buffer contents depend on the concatenation of the chunks only. ShrinkSize == BufferSize was accepted and made Wrap panic (genuine defect, fixed). NOT under contract: GSAP, OSAP refinements; 'equal buffer states give equal blocks' is the determinism argument of C13.",
              note="io.Reader: 0<=n<=len(p), does not return lz.ErrFullBuffer; int64 offsets mathematical; engine semantics; solver soundness; invariant induction over histories not mechanised.", tech="contract-based deductive verification: WP/VC generation over the typed Go AST (lzvc), interface contract over a ghost model with per-type refinement lemmas, SMT discharge (z3/cvc5)", ref="DESIGN.md §4 C08"),
+ "C16": dict(cat="other", text="Proof (every obligation discharged) for HP, BHP, DHP, BDHP, BUP, their dictionaries, ParserBuffer and WrappedParser: (a) BufConfig/hashConfig/dhConfig/bucketConfig/per-type Verify return nil exactly on the stated ranges and init/NewParser succeed exactly when the defaults-completed configuration passes them (relative to the assumed reflect field-copy helpers), for arbitrary field values, and establish the parser invariant; (b) under that invariant alone every index, slice, nil, overflow, make and panic obligation of every method (Write, ReadFrom, Reset, Shrink, Parse, processSegment, shiftOffsets, wrapped Parse) is discharged and the invariant is re-established, so no call sequence can panic; (c) every loop has a discharged variant (no hang) and the error results are proved to be nil/ErrEmptyBuffer/ErrFullBuffer/the Reset oversize error/the reader's error. Also Verify clauses of GSAPConfig and OSAPConfig. ShrinkSize == BufferSize was accepted and made Wrap panic (genuine defect, fixed). NOT under contract: the GSAP and OSAP parsers (init, Parse, sort, computeEdges), suffix package; allocation failure is out of scope.",
+             note="reflect helpers assumed (validated by the bounded stand-in of C20); io.Reader contract assumed; 64-bit int; engine semantics; solver soundness; invariant induction over call histories not mechanised.", tech="contract-based deductive verification: WP/VC generation over the typed Go AST (lzvc), zero-annotation safety obligations under the data-structure invariant, SMT discharge (z3/cvc5)", ref="DESIGN.md §4 C16"),
+ "C20": dict(cat="other", text="Proved by SMT: Clone of all seven configuration types returns an equal value in a new object; SetDefaults of BufConfig, hashConfig, dhConfig, bucketConfig, DecoderConfig and of all seven parser configurations equals the stated defaults function, changes no non-zero field (keep clauses) and is idempotent (lemmaDefaultsIdem<T>: two calls give the same value as one); BufConfig/SetBufConfig get/set exactly the four buffer fields; for HP, BHP, DHP, BDHP, BUP the configuration stored by init and reported by ParserConfig equals the defaults-completed argument and Parse leaves it unchanged. The per-type methods are proved relative to assumed contracts of the reflect-based helpers. BOUNDED (executable stand-in, not a proof): JSON round trip ParseJSON(json.Marshal(&cfg)) for all seven types over boundary and pseudo-random field values and two-document histories, rejection of unknown/mismatching/malformed Type documents, and the assumed reflect-helper contracts themselves, plus an exhaustive static comparison of parserConfigUnion against the fields of every configuration type.",
+             note="encoding/json and reflect are outside the verifier's reach: those clauses are bounded only. GSAP/OSAP 'reported configuration' clauses are not under contract.", tech="contract-based deductive verification (lzvc, SMT) for Clone/SetDefaults/reported configuration; bounded executable stand-in for the JSON and reflect clauses", ref="DESIGN.md §4 C20"),
  "C01": dict(cat="other", text="For HP, BHP, DHP, BDHP and BUP, Parse is verified against a contract with a ghost certificate of the block: chain maps (g_ga: buffer position, g_gl: literal index of every sequence), per-literal positions g_lp with Literals[x] == Data[g_lp[x]] for every literal byte and g_lp[g_gl[t]+u] == g_ga[t]+u for every sequence, trailing literals included; Data, Off and the configuration are unchanged and the buffer operations (Write, ReadFrom, Reset, Shrink) keep the buffer a faithful window of the stream (C15). NOT yet under contract: the match clause (bytes of a match equal the bytes Offset back), GSAP and OSAP; the step from the certificate to 'a plain expander reproduces the input' is bridge lemma B1 (not mechanised).",
              note="Assumes caller's blk.Literals does not alias the parser buffer (and the bucket index array); reflect-based config helpers are outside; engine semantics; solver soundness.", tech="contract-based deductive verification: WP/VC generation over the typed Go AST (lzvc), SMT discharge (z3/cvc5)", ref="DESIGN.md §4 C01"),
  "C02": dict(cat="other", text="For HP, BHP, DHP, BDHP and BUP every emitted sequence is proved to satisfy 1 <= Offset <= WindowSize, Offset <= position of the match in the buffer (hence <= stream bytes before it), MatchLen >= min(3, InputLen), Aux == 0 and g_gl[t]+LitLen <= len(Literals) (LitLen never claims more literals than the block carries), for all inputs, accepted configurations and buffer states satisfying the parser invariant. GSAP and OSAP are not yet under contract.",
